@@ -27,7 +27,7 @@ Print Assumptions C10_no_media_in_rule.
 
 (* a reference that cannot be resolved never reaches the output: evaluation fails *)
 Theorem C10_no_unresolved_variable :
-  forall fuel sc x rest, variables x sc = None -> (match x with "@"%char :: "@"%char :: _ => False | _ => True end) ->
+  forall fuel sc x rest, variables x sc = None -> (match x with "@"%char :: "@"%char :: _ => False | _ => True end) -> is_interp x = false ->
     eval_value (S fuel) sc (VVar x :: rest) = RError $"SyntaxError" ($"Unknown variable " ++ x).
 Proof. exact unbound_is_error. Qed.
 Print Assumptions C10_no_unresolved_variable.
